@@ -2,6 +2,7 @@ package router
 
 import (
 	"net/netip"
+	"time"
 
 	"github.com/IrineSistiana/mosproxy/internal/verifrt"
 )
@@ -40,5 +41,57 @@ func VerifH_C20_PrefetchOutlivesRequest() {
 	verifrt.Assert(nb == 1, "request C is forwarded exactly once; a refresh never asks for another request's question")
 	if len(up.seen) == 3 {
 		verifrt.Reach("refreshed")
+	}
+}
+
+// VerifH_C07_RefreshFiledUnderOwnQuestion: the cache is also written by background refreshes, which outlive the
+// request that started them. Under a harness-controlled clock: a miss on question a (60 s lifetime), 50 s later a hit
+// on a (inside the refresh window by construction), then a query for b handled while the refresh of a is still
+// pending or in flight (≤ 1 scheduling deviation), then — once everything has settled, one second later — repeats of
+// b and of a. Whatever was stored meanwhile, every one of the five responses carries its own question and the answer
+// the upstream produced for exactly that question (the upstream's answers are a function of the question it is
+// asked), the repeats are served from the cache, and the upstream was only ever asked questions that clients asked.
+func VerifH_C07_RefreshFiledUnderOwnQuestion() {
+	verifrt.Unwind(400)
+	verifrt.SchedBound(1)
+	verifrt.CtxNoExpiry = true
+	base := time.Unix(1700000000, 0)
+	offset := time.Duration(0)
+	verifrt.Redirect("time.Now", func() time.Time { return base.Add(offset) })
+	verifrt.Redirect("time.Until", func(t time.Time) time.Duration { return t.Sub(base.Add(offset)) })
+	verifrt.Redirect("time.Since", func(t time.Time) time.Duration { return base.Add(offset).Sub(t) })
+	up := &vKeyedUpstream{}
+	r := vRouter([]*rule{{upstream: &upstreamWrapper{tag: "up", u: up}}}, true)
+	s, out := vUDPServer(r)
+	listener := netip.AddrPortFrom(netip.AddrFrom4([4]byte{192, 0, 2, 53}), 53)
+	client := netip.AddrPortFrom(netip.AddrFrom4([4]byte{198, 51, 100, 1}), 1111)
+	s.handleMsg(vQueryMsg(1, 'a', false, 0), nil, client, listener)
+	verifrt.Quiesce()
+	offset = 50 * time.Second
+	s.handleMsg(vQueryMsg(2, 'a', false, 0), nil, client, listener)
+	s.handleMsg(vQueryMsg(3, 'b', false, 0), nil, client, listener)
+	verifrt.Quiesce()
+	forwarded := len(up.seen)
+	verifrt.Assert(forwarded == 3, "a and b were forwarded once each, and the hit on a started one refresh")
+	offset = 51 * time.Second
+	s.handleMsg(vQueryMsg(4, 'b', false, 0), nil, client, listener)
+	s.handleMsg(vQueryMsg(5, 'a', false, 0), nil, client, listener)
+	verifrt.Quiesce()
+	verifrt.Reach("served")
+	verifrt.Assert(len(*out) == 5, "one datagram per query")
+	markers := []byte{'a', 'a', 'b', 'b', 'a'}
+	answered := [6]int{}
+	for _, d := range *out {
+		id := int(d.b[0])<<8 | int(d.b[1])
+		verifrt.Assert(id >= 1 && id <= 5, "response to one of the queries")
+		answered[id]++
+		vCheckResponse(d.b, uint16(id), markers[id-1], true)
+	}
+	for id := 1; id <= 5; id++ {
+		verifrt.Assert(answered[id] == 1, "each query answered once")
+	}
+	verifrt.Assert(len(up.seen) == forwarded, "the repeats are answered from the cache (more than one second of lifetime remains)")
+	for _, m := range up.seen {
+		verifrt.Assert(m == 'a' || m == 'b', "the upstream only sees questions that were asked")
 	}
 }
